@@ -149,10 +149,10 @@ package grpchan
 //@ closure InterceptServer.field:Handler#1.combinedInterceptor
 //@   ensures[C16] transport_interceptor_first_and_once: calls("var:interceptor") == 1 && !called("var:unaryInt") && resp == lastresult("var:interceptor", 0) && err == lastresult("var:interceptor", 1)
 //@   assert_call[C16] var:interceptor : request_unchanged: arg0 == ctx && arg1 == req && arg2 == info
-//@   assert_call[C16] var:interceptor : continues_with_decorating_interceptor: isfunc(arg3, "InterceptServer.field:Handler#1.combinedInterceptor.h") && *binding(arg3, 0, "*grpc.UnaryServerInterceptor") == unaryInt && *binding(arg3, 1, "**grpc.UnaryServerInfo") == info && *binding(arg3, 2, "*grpc.UnaryHandler") == handler
+//@   assert_call[C16] var:interceptor : continues_with_decorating_interceptor: isfunc(arg3, "InterceptServer.field:Handler#1.combinedInterceptor.arg#1") && *binding(arg3, 0, "*grpc.UnaryServerInterceptor") == unaryInt && *binding(arg3, 1, "**grpc.UnaryServerInfo") == info && *binding(arg3, 2, "*grpc.UnaryHandler") == handler
 //@   modifies everything
 //
-//@ closure InterceptServer.field:Handler#1.combinedInterceptor.h
+//@ closure InterceptServer.field:Handler#1.combinedInterceptor.arg#1
 //@   ensures[C16] decorating_interceptor_next_and_once: calls("var:unaryInt") == 1 && result0 == lastresult("var:unaryInt", 0) && result1 == lastresult("var:unaryInt", 1)
 //@   assert_call[C16] var:unaryInt : onward_to_the_real_handler: arg0 == ctx && arg1 == req && arg2 == info && arg3 == handler
 //@   modifies everything
